@@ -222,6 +222,39 @@ def run_item(item):
                         continue
                     if len(batches) > 1:
                         res["outcomes"].append(cfg)
+        # the batch sizes of a loader may be changed afterwards (len() re-reads them): the next pass follows the NEW sizes and still
+        # presents every pair
+        for bb in [s_ for s_ in sizes if s_ > 0]:
+            for tb in [s_ for s_ in sizes if s_ > 0]:
+                for bb2, tb2 in ((bb, max(1, tb - 1)), (max(1, bb - 1), tb), (bb + 1, tb + 1)):
+                    if (bb2, tb2) == (bb, tb) or bb2 > nb or tb2 > nt:
+                        continue          # sizes above the data-set size are clamped by the constructor only
+                    cfg = "%s Nb=%d Nt=%d batch sizes (%d,%d) changed to (%d,%d) after construction" % (layout, nb, nt, bb, tb, bb2, tb2)
+                    res["states"].append(cfg)
+                    res["evals"] += 1
+                    try:
+                        ld = DeepONetDataLoader(branch.clone(), trunk.clone(), outd.clone(), bspace, tspace, ospace, bb, tb)
+                        _first = [b for b in ld]
+                        ld.dataset.branch_batch_size, ld.dataset.trunk_batch_size = bb2, tb2
+                        ln2 = len(ld)
+                        second = [b for b in ld]
+                    except Exception as e:
+                        viol("C16|deeponet|error|%s|resize|%s" % (type(e).__name__, layout), "%s raised %s: %s" % (cfg, type(e).__name__, str(e)[:100]))
+                        continue
+                    res["transitions"] += len(second)
+                    seen_pairs = set()
+                    too_big = False
+                    for b in second:
+                        o = b[2].as_tensor
+                        if o.shape[0] > min(bb2, nb) or o.shape[1] > min(tb2, nt):
+                            too_big = True
+                        seen_pairs.update(int(round(v)) for v in o.reshape(-1).tolist())
+                    want_pairs = {100 * i + j for i in range(nb) for j in range(nt)}
+                    if too_big or ln2 != len(second) or seen_pairs != want_pairs:
+                        viol("C16|deeponet|resize|%s" % layout, "%s: the next pass has %d batches (len %d), %s, and presents %d of %d pairs" % (
+                            cfg, len(second), ln2, "a batch larger than requested" if too_big else "sizes ok", len(seen_pairs & want_pairs), len(want_pairs)))
+                    else:
+                        res["outcomes"].append(cfg)
         res["samples"] = [{"loader": "DeepONetDataLoader", "layout": layout, "Nb": nb, "Nt": nt}]
         return res
 
